@@ -247,6 +247,8 @@ class Pol:
                 t = T(a, stmt, scope, seen)
                 out = t if out is None else self._prod(out, t)
             return out or []
+        if name in ("divide", "true_divide", "floor_divide") and len(args) >= 2:
+            return T(ast.BinOp(left=args[0], op=ast.Div(), right=args[1]), stmt, scope, seen)
         if name in ADDS and len(args) >= 2:
             return T(args[0], stmt, scope, seen) + T(args[1], stmt, scope, seen)
         if name in SUBS and len(args) >= 2:
